@@ -1,17 +1,34 @@
-"""native replay for C14: two interleaved runs with run keys on a real RunEngine; every document must belong to its own run"""
+"""native replays for C14 on a real RunEngine: concurrent runs with run keys (documents grouped by run_start; routing of messages;
+set_run_key_wrapper on keys of every kind; numbering of interleaved runs across a pause / resume)"""
 from bluesky import RunEngine
-from bluesky.utils import Msg, IllegalMessageSequence
+from bluesky.utils import Msg, IllegalMessageSequence, RunEngineInterrupted
+
+from .common import get
+
+
+class Done:
+    done = True
+    success = True
+
+    def add_callback(self, cb):
+        cb(self)
+
+    def exception(self, timeout=None):
+        return None
 
 
 class Det:
     parent = None
-    hints = {"fields": []}
 
     def __init__(self, name):
         self.name = name
+        self.hints = {"fields": [name]}
+        self.subs = []
+        self.n = 0
 
     def read(self):
-        return {self.name: {"value": 1.0, "timestamp": 0.0}}
+        self.n += 1
+        return {self.name: {"value": float(self.n), "timestamp": 0.0}}
 
     def describe(self):
         return {self.name: {"dtype": "number", "shape": [], "source": "x"}}
@@ -22,19 +39,30 @@ class Det:
     def describe_configuration(self):
         return {}
 
+    def configure(self, *a, **k):
+        return {}, {}
+
     def trigger(self):
-        from bluesky.protocols import Status
-
-        class Done:
-            done = True
-            success = True
-
-            def add_callback(self, cb):
-                cb(self)
-
-            def exception(self, timeout=None):
-                return None
         return Done()
+
+    def kickoff(self):
+        return Done()
+
+    def complete(self):
+        return Done()
+
+    def collect(self):
+        return iter(())
+
+    def describe_collect(self):
+        return {}
+
+    def subscribe(self, cb, **kw):
+        self.subs.append(cb)
+
+    def clear_sub(self, cb):
+        if cb in self.subs:
+            self.subs.remove(cb)
 
 
 def independent(model, info, art):
@@ -83,3 +111,384 @@ def independent(model, info, art):
         if [x for x in rb if x[0] == "event"] != [("event", 1, ["b"])] or rb[-1] != ("stop", {"primary": 1}):
             problems.append(f"run B documents {rb}")
     return ("confirmed" if problems else "contradicted"), "; ".join(problems) or "both runs complete and independent"
+
+
+# ------------------------------------------------------------------------------------------------ F: routing of one message
+KEYS = {"default": None, "a": "a", "zero": 0, "empty": "", "zz": "zz"}
+OPEN = ["default", "a", "zero"]
+METHOD = {"_create": "create", "_declare_stream": "declare_stream", "_save": "save", "_drop": "drop", "_monitor": "monitor", "_unmonitor": "unmonitor",
+          "_kickoff": "kickoff", "_collect": "collect", "_read": "read", "_configure": "configure", "_close_run": "close_run"}
+
+
+def frame(model, info, art):
+    """one message with the given run key while runs None / 'a' / 0 are open: which bundler sees it (spies on the real bundlers)"""
+    h, label = info["handler"], info["key"]
+    key = KEYS[label]
+    RE = RunEngine(context_managers=[])
+    docs = []
+    RE.subscribe(lambda n, d: docs.append((n, d)))
+    det = Det("det")
+    seen, out = [], {}
+
+    if h == "_open_run":
+        opened = OPEN if info.get("open") == "all" else [info["open"]]
+
+        def plan():
+            for k in opened:
+                yield Msg("open_run", run=KEYS[k])
+            out["bundlers"] = dict(RE._run_bundlers)
+            out["ndocs"] = len(docs)
+            try:
+                out["ret"] = yield Msg("open_run", run=key)
+            except IllegalMessageSequence as e:
+                out["exc"] = e
+            out["after"] = dict(RE._run_bundlers)
+            out["docs"] = list(docs[out["ndocs"]:])
+            for k in list(RE._run_bundlers):
+                yield Msg("close_run", run=k)
+        RE(plan())
+        same = all(k in out["after"] and out["after"][k] is v for k, v in out["bundlers"].items())
+        if label in opened:
+            bad = "exc" not in out or out["docs"] or not same or len(out["after"]) != len(out["bundlers"])
+            return ("confirmed" if bad else "contradicted"), f"duplicate open_run(run={key!r}): raised={out.get('exc')!r}, documents emitted={[n for n, d in out['docs']]}, open runs kept={same}"
+        starts = [d for n, d in out["docs"] if n == "start"]
+        bad = "exc" in out or not same or len(out["after"]) != len(out["bundlers"]) + 1 or key not in out["after"] or len(starts) != 1 \
+            or out["after"][key]._run_start_uid != starts[0]["uid"] or out["ret"] != starts[0]["uid"]
+        return ("confirmed" if bad else "contradicted"), f"open_run(run={key!r}) next to {opened}: raised={out.get('exc')!r}, open afterwards={list(out['after'])}, starts={len(starts)}"
+
+    meth = METHOD[h]
+
+    def spy(name):
+        async def f(*a, **k):
+            seen.append((name, a[0] if a else None))
+            return None
+        return f
+
+    def plan():
+        for k in OPEN:
+            yield Msg("open_run", run=KEYS[k])
+        for k in OPEN:
+            setattr(RE._run_bundlers[KEYS[k]], meth, spy(k))
+        out["before"] = dict(RE._run_bundlers)
+        msg = Msg(h[1:], det, run=key) if h in ("_read", "_configure", "_kickoff", "_monitor", "_unmonitor", "_collect") else Msg(h[1:], run=key)
+        out["msg"] = msg
+        try:
+            yield msg
+        except IllegalMessageSequence as e:
+            out["exc"] = e
+        out["after"] = dict(RE._run_bundlers)
+        for k in OPEN:
+            b = out["before"][KEYS[k]]
+            if meth in vars(b):
+                delattr(b, meth)
+        for k in list(RE._run_bundlers):
+            yield Msg("close_run", run=k)
+    RE(plan())
+    detail = f"{h[1:]}(run={key!r}) with runs {OPEN} open: bundlers that saw it {[k for k, m in seen]}, raised={out.get('exc')!r}"
+    if label not in OPEN:
+        if h in ("_read", "_configure"):
+            bad = bool(seen) or "exc" in out
+        else:
+            bad = bool(seen) or "exc" not in out
+        bad = bad or list(out["after"]) != list(out["before"])
+        return ("confirmed" if bad else "contradicted"), detail
+    bad = [k for k, m in seen] != [label] or seen[0][1] is not out["msg"] or "exc" in out
+    want = [k for k in OPEN if k != label] if h == "_close_run" else OPEN
+    bad = bad or [k for k in OPEN if KEYS[k] in out["after"]] != want
+    return ("confirmed" if bad else "contradicted"), detail
+
+
+# ------------------------------------------------------------------------------------------------ K: set_run_key_wrapper
+class Key:
+    def __init__(self, truth):
+        self.truth = truth
+
+    def __bool__(self):
+        return self.truth
+
+
+def _key(model, kind, name):
+    if kind == "int":
+        return get(model, f"{name}_int", "int", 0)
+    if kind == "str":
+        return get(model, f"{name}_str", "str", "")
+    if kind == "object":
+        t = [v for k, v in model.items() if k.startswith(f"truth({name})")]
+        return Key(bool(t) and t[0].strip() == "True")
+    return {"empty-tuple": (), "false": False}[kind]
+
+
+def set_run_key(model, info, art):
+    from bluesky.preprocessors import set_run_key_wrapper
+    own, inner, depth = info["own"], info["inner"], int(info["depth"])
+    k_own = None if own == "none" else _key(model, own, "msg_key")
+    k_inner = _key(model, inner, "inner_key")
+    dev = object()
+    msg = Msg("read", dev, 1, k=2, run=k_own)
+    got_back = []
+
+    def one():
+        got_back.append((yield msg))
+        return got_back[-1]
+    g = set_run_key_wrapper(one(), k_inner)
+    if depth == 2:
+        g = set_run_key_wrapper(g, "outer")
+    try:
+        got = g.send(None)
+    except Exception as e:      # noqa: BLE001
+        return "confirmed", f"message key {k_own!r}, wrapper key {k_inner!r}, depth {depth}: the wrapped plan raised {e!r} instead of yielding the message"
+    want = k_own if own != "none" else k_inner
+    same = got.run is want or (type(got.run) is type(want) and not isinstance(want, Key) and got.run == want)
+    fields = got.command == "read" and got.obj is dev and got.args == (1,) and got.kwargs == {"k": 2}
+    answer = object()
+    try:
+        g.send(answer)
+        returned = None
+    except StopIteration as e:
+        returned = e.value
+    detail = f"message key {k_own!r}, wrapper key {k_inner!r}, depth {depth}: yielded run={got.run!r} (wanted {want!r}); fields kept={fields}; answer reached the plan={returned is answer}"
+    clause = art.get("obligation") or ""
+    if "answer reaches the plan" in clause:
+        return ("contradicted" if returned is answer else "confirmed"), detail
+    ok = same and fields and (own == "none" or got is msg)
+    return ("contradicted" if ok else "confirmed"), detail
+
+
+# ------------------------------------------------------------------------------------------------ I: interleaved runs, pause / resume
+PAIRS = {"default+str": (None, "b"), "str+zero": ("a", 0), "zero+default": (0, None), "empty+str": ("", "b")}
+
+
+def interleaved(model, info, art):
+    """runs A and B brought to (snap, next) by events around an explicit checkpoint; then the checkpoint under test, the events of
+    the shape (a duplicate open_run before the first), a pause, resume, close: the clauses of the obligation on the documents"""
+    clause = art.get("obligation") or ""
+    M = info.get("checkpoint", "checkpoint")
+    ka, kb = PAIRS[info["keys"]]
+    shape, dup, cache = list(info.get("shape") or []), bool(info.get("dup")), info.get("cache", "messages")
+    n = {"A": get(model, "next_A", "int", 2), "B": get(model, "next_B", "int", 1)}
+    s = {"A": get(model, "snap_A", "int", 1), "B": get(model, "snap_B", "int", 1)}
+    if max(n.values()) > 3000 or min(s.values()) < 1:
+        return "not-constructible", f"counters {n} / {s}"
+    key = {"A": ka, "B": kb}
+    det = {"A": Det("detA"), "B": Det("detB")}
+    sig = Det("sig")
+    RE = RunEngine(context_managers=[])
+    docs = []
+    RE.subscribe(lambda nm, d: docs.append((nm, d)))
+    marks, dup_result, state = {}, {}, {}
+
+    def event(R):
+        yield Msg("create", name="primary", run=key[R])
+        yield Msg("read", det[R], run=key[R])
+        yield Msg("save", run=key[R])
+
+    def plan():
+        uids = {}
+        for R in ("A", "B"):
+            uids[R] = yield Msg("open_run", run=key[R])
+            yield Msg("declare_stream", None, det[R], name="primary", run=key[R])
+        marks["uids"] = uids
+        for R in ("A", "B"):
+            for _ in range(s[R] - 1):
+                yield from event(R)
+        if M == "unmonitor_B":
+            yield Msg("monitor", sig, name="mon", run=kb)
+        yield Msg("checkpoint")
+        for R in ("A", "B"):
+            for _ in range(n[R] - s[R]):
+                yield from event(R)
+        if cache == "messages":
+            yield Msg("null")
+        # ---- the checkpoint under test
+        open_now = ["A", "B"]
+        if M == "close_run_B":
+            yield Msg("close_run", run=kb)
+            open_now = ["A"]
+        elif M == "monitor_B":
+            yield Msg("monitor", sig, name="mon", run=kb)
+        elif M == "unmonitor_B":
+            yield Msg("unmonitor", sig, run=kb)
+        else:
+            yield Msg("checkpoint")
+        state["ckpt"] = {R: (dict(RE._run_bundlers[key[R]]._sequence_counters), dict(RE._run_bundlers[key[R]]._sequence_counters_copy)) for R in open_now}
+        state["cache"] = None if RE._msg_cache is None else len(RE._msg_cache)
+        marks["first"] = len(docs)
+        todo = [R for R in shape if R in open_now]
+        marks["todo"] = todo
+        for i, R in enumerate(todo):
+            if dup and i == 0:
+                before = (len(docs), dict(RE._run_bundlers), list(RE._run_start_uids), dict(RE.md))
+                try:
+                    yield Msg("open_run", run=key[R])
+                    dup_result["raised"] = False
+                except IllegalMessageSequence:
+                    dup_result["raised"] = True
+                now = dict(RE._run_bundlers)
+                dup_result["unchanged"] = len(docs) == before[0] and len(now) == len(before[1]) and all(now.get(k) is v for k, v in before[1].items()) \
+                    and list(RE._run_start_uids) == before[2] and dict(RE.md) == before[3]
+            yield from event(R)
+        marks["pause"] = len(docs)
+        yield Msg("pause")
+        marks["resumed"] = len(docs)
+        if M == "monitor_B":
+            yield Msg("unmonitor", sig, run=kb)
+        for R in open_now:
+            yield Msg("close_run", run=key[R])
+    setup = f"keys A={ka!r} B={kb!r}, next/snap A={n['A']}/{s['A']} B={n['B']}/{s['B']}, checkpoint={M}, events={shape}, dup={dup}"
+    rejected = None
+    try:
+        RE(plan())
+        return "not-constructible", "the plan did not pause"
+    except RunEngineInterrupted:
+        pass
+    except Exception as e:      # noqa: BLE001 - a message of the plan was rejected / failed
+        rejected = e
+    n_pause = len(docs)
+    if rejected is None:
+        try:
+            RE.resume()
+        except Exception as e:      # noqa: BLE001
+            rejected = e
+    if rejected is not None:
+        if RE.state != "idle":
+            try:
+                RE.abort()
+            except Exception:      # noqa: BLE001
+                pass
+        if "duplicate open_run" in clause or "every open run's snapshot" in clause:
+            return "not-constructible", setup + f": the plan failed with {rejected!r}"
+        return "confirmed", setup + f": a message of the plan was not applied to the run of its key: the plan failed with {rejected!r}"
+    desc = {d["uid"]: d for nm, d in docs if nm == "descriptor"}
+    num, own, ck, dp = [], [], [], []
+    for R, (cnt, copy) in state["ckpt"].items():
+        if cnt.get("primary") != copy.get("primary"):
+            ck.append(f"run {R} (key {key[R]!r}): after the checkpoint '{M}' the snapshot of 'primary' is {copy.get('primary')} while the run is at {cnt.get('primary')}")
+    if state["cache"] != 0:
+        ck.append(f"message cache after the checkpoint: {state['cache']}")
+    if dup and marks["todo"]:
+        if not dup_result.get("raised"):
+            dp.append("the duplicate open_run was accepted")
+        if not dup_result.get("unchanged"):
+            dp.append("the duplicate open_run changed the open runs / emitted documents")
+    for R in ("A", "B"):
+        uid = marks["uids"][R]
+        k = len([x for x in marks["todo"] if x == R])
+        mine = lambda lo, hi: [d for nm, d in docs[lo:hi] if nm == "event" and desc[d["descriptor"]]["run_start"] == uid and desc[d["descriptor"]]["name"] == "primary"]  # noqa: E731
+        first, second = mine(marks["first"], n_pause), mine(n_pause, len(docs))
+        stops = [d for nm, d in docs if nm == "stop" and d["run_start"] == uid]
+        if len(first) != k or len(second) != k or len(stops) != 1:
+            own.append(f"run {R}: {len(first)} events before / {len(second)} after the pause (expected {k} each), {len(stops)} stop documents")
+            continue
+        for e in first + second:
+            if set(e["data"]) != {f"det{R}"}:
+                own.append(f"run {R}: event with data of {sorted(e['data'])}")
+        want = [n[R] + i for i in range(k)]
+        if [e["seq_num"] for e in first] != want or [e["seq_num"] for e in second] != want:
+            num.append(f"run {R} (key {key[R]!r}): seq_nums {[e['seq_num'] for e in first]} before the pause, {[e['seq_num'] for e in second]} for the replayed events, expected {want} both times")
+        if stops[0]["num_events"].get("primary") != n[R] - 1 + k:
+            num.append(f"run {R}: stop.num_events = {stops[0]['num_events']}, expected primary = {n[R] - 1 + k}")
+    if "every open run's snapshot" in clause:
+        problems = ck
+    elif "duplicate open_run" in clause:
+        problems = dp
+    elif "belongs to the run" in clause:
+        problems = own
+    else:
+        problems = num
+    return ("confirmed" if problems else "contradicted"), setup + ": " + ("; ".join(problems) or "every clause holds")
+
+
+def checkpoint_all(model, info, art):
+    """runs None / 'a' / 0 open, each one event past its snapshot; then the implicit-checkpoint message of `handler` for run `key`:
+    afterwards the snapshot of every run that is still open is its current numbering and the engine's message cache is empty"""
+    h, label = info["handler"], info["key"]
+    key = KEYS[label]
+    RE = RunEngine(context_managers=[])
+    det = {k: Det(f"det_{k}") for k in OPEN}
+    sig = Det("sig")
+    state = {}
+
+    def event(k):
+        yield Msg("create", name="primary", run=KEYS[k])
+        yield Msg("read", det[k], run=KEYS[k])
+        yield Msg("save", run=KEYS[k])
+
+    def plan():
+        for k in OPEN:
+            yield Msg("open_run", run=KEYS[k])
+        for k in OPEN:
+            yield from event(k)
+        if h == "_unmonitor":
+            yield Msg("monitor", sig, name="mon", run=key)
+        yield Msg("checkpoint")
+        for k in OPEN:
+            yield from event(k)
+        if h == "_close_run":
+            yield Msg("close_run", run=key)
+        elif h == "_monitor":
+            yield Msg("monitor", sig, name="mon", run=key)
+        else:
+            yield Msg("unmonitor", sig, run=key)
+        state["runs"] = {k: (dict(RE._run_bundlers[KEYS[k]]._sequence_counters), dict(RE._run_bundlers[KEYS[k]]._sequence_counters_copy))
+                         for k in OPEN if KEYS[k] in RE._run_bundlers}
+        state["cache"] = None if RE._msg_cache is None else len(RE._msg_cache)
+        if h == "_monitor":
+            yield Msg("unmonitor", sig, run=key)
+        for k in list(RE._run_bundlers):
+            yield Msg("close_run", run=k)
+    RE(plan())
+    stale = [f"run {k!r}: snapshot of 'primary' is {copy.get('primary')} while the run is at {cnt.get('primary')}"
+             for k, (cnt, copy) in state["runs"].items() if copy.get("primary") != cnt.get("primary")]
+    want = [k for k in OPEN if not (h == "_close_run" and k == label)]
+    if sorted(state["runs"]) != sorted(want):
+        stale.append(f"open runs afterwards {sorted(state['runs'])}")
+    if state["cache"] != 0:
+        stale.append(f"message cache afterwards: {state['cache']}")
+    return ("confirmed" if stale else "contradicted"), f"{h[1:]}(run={key!r}) with runs {OPEN} open, each one event past its snapshot: " + ("; ".join(stale) or "every open run's snapshot refreshed")
+
+
+def baseline(model, info, art):
+    """baseline_wrapper over two interleaved keyed runs on a real RunEngine: every message between the plan's own messages (seen through
+    msg_hook) must carry the key of the run whose open_run / close_run triggered the baseline readings"""
+    from bluesky.preprocessors import baseline_wrapper
+    kinds = info["kinds"]
+    keys = [None if k == "none" else _key(model, k, f"key{i}") for i, k in enumerate(kinds)]
+    if keys[0] is not None and keys[1] is not None and type(keys[0]) is type(keys[1]) and not isinstance(keys[0], Key) and keys[0] == keys[1]:
+        return "not-constructible", f"equal keys {keys!r}"
+    det = Det("bdet")
+    user = [Msg("open_run", run=keys[0]), Msg("open_run", run=keys[1]), Msg("checkpoint"), Msg("close_run", run=keys[0]), Msg("close_run", run=keys[1])]
+    seen = []
+    RE = RunEngine(context_managers=[])
+    RE.msg_hook = seen.append
+    docs = []
+    RE.subscribe(lambda n, d: docs.append((n, d)))
+
+    def plan():
+        for m in user:
+            yield m
+    try:
+        RE(baseline_wrapper(plan(), [det]))
+    except Exception as e:      # noqa: BLE001
+        return "confirmed", f"keys {keys!r}: the wrapped plan failed with {e!r} after messages {[(m.command, m.run) for m in seen]}"
+    owner = {0: 0, 1: 1, 2: 0, 3: 1}          # segment after user[i] (before user[i + 1]) belongs to run ...
+    problems, seg = [], None
+    for m in seen:
+        hit = [i for i, u in enumerate(user) if m is u]
+        if hit:
+            seg = hit[0]
+            continue
+        if seg is None or seg not in owner:
+            problems.append(f"unexpected message {m.command} outside the runs")
+            continue
+        k = keys[owner[seg]]
+        if not (m.run is k or (k is not None and not isinstance(k, Key) and type(m.run) is type(k) and m.run == k)):
+            problems.append(f"{m.command} inserted for the run with key {k!r} carries run={m.run!r}")
+    if [m for m in seen if any(m is u for u in user)] != user:
+        problems.append("the plan's own messages did not pass unchanged")
+    starts = [d["uid"] for n, d in docs if n == "start"]
+    desc = {d["uid"]: d["run_start"] for n, d in docs if n == "descriptor" and d["name"] == "baseline"}
+    for i, u in enumerate(starts):
+        nb = len([1 for n, d in docs if n == "event" and desc.get(d["descriptor"]) == u])
+        if nb != 2:
+            problems.append(f"run #{i + 1} has {nb} baseline events, expected 2")
+    return ("confirmed" if problems else "contradicted"), f"keys {keys!r}: " + ("; ".join(problems[:6]) or "every inserted message carries the key of its run")
